@@ -1764,7 +1764,8 @@ public:
 
         for ( size_type k = n; k > l; k-- )
         {
-            word_type q = DDquotient(rem_view[k], rem_view[k-1], d);
+            // the estimate does not fit a word when the top words are equal: start from the largest digit
+            word_type q = rem_view[k] >= d ? max_word : DDquotient(rem_view[k], rem_view[k-1], d);
             subtractmul( rem_view.data() + (k - l - 1), denom_view.data(), l + 1, q );
             quot_view[k - l - 1] = q;
         }
@@ -1859,7 +1860,7 @@ private:
             a[i + 1] -= hi + carry;
             carry = a[i + 1] > d;
         }
-        if ( carry ) // q was too large
+        while ( carry ) // q was too large: add b back until the difference is no longer negative
         {
             q--;
             carry = 0;
@@ -1871,7 +1872,8 @@ private:
                 if ( a[i] < d )
                     carry = 1;
             }
-            a[n] = 0;
+            a[n] += carry;
+            carry = a[n] != 0;
         }
     }
 
